@@ -157,7 +157,8 @@ class TapeRecorder(object):
         # Check if the operation has completed by checking if we have operation output recorded, if not it means
         # the operation method didn't complete and regular exception was not caught
         # (this will happen when BaseException is raised such as KeyboardInterrupt, SystemExit)
-        incomplete = not any(TapeRecorder.OPERATION_OUTPUT_ALIAS in o.key for o in outputs)
+        operation_output_key = TapeRecorder._output_interception_key(TapeRecorder.OPERATION_OUTPUT_ALIAS, 1) + '.output'
+        incomplete = not any(o.key == operation_output_key for o in outputs)
         metadata[TapeRecorder.INCOMPLETE_RECORDING] = incomplete
         if post_operation_metadata_extractor:
             try:
